@@ -277,6 +277,9 @@ def run_variant(name, spec, tmp, objspecs, draws, want_bear, special):
         reg = ctx.snap[tag]['reg']
         objs = [ctx.build(s, reg) for s in objspecs]
         for side in ('impl', 'spec'):
+            if side == 'spec' and exp['spec'] == exp['impl'] and pr.get('impl') is not None:
+                pr['spec'], pr['spec_free'], pr['spec_info'] = pr['impl'], pr['impl_free'], pr['impl_info']
+                continue
             try:
                 vec, free, info = ref_vectors(exp[side], reg, objs, draws)
                 pr[side] = vec
